@@ -350,6 +350,19 @@ func Generate(seed uint64, up string, token string, qname refdns.Name, qclass, q
 		opt := refdns.RR{Name: refdns.Root, Type: refdns.TypeOPT, Class: o.UDPSize, TTL: o.TTL, Data: od}
 		m.Ar = ins(m.Ar, o.Pos, opt)
 	}
+	// "tight" answers are filled up to their target size on the wire (as this
+	// server will lay them out) to within 12 octets, so that targets just below
+	// 65535 leave less room than the proxy's own OPT record needs.
+	if spec.Shape == "tight" && spec.PadTo > 0 {
+		for i := 0; i < 400; i++ {
+			d := spec.PadTo - len(refdns.Pack(m, PackOptsFor(spec.Compress)))
+			if d < 13 {
+				break
+			}
+			n := min(d-12, 255)
+			m.Ar = append(m.Ar, refdns.RR{Name: refdns.Root, Type: refdns.TypeTXT, Class: qclass, TTL: ttl(90 + i), Data: append([]byte{byte(n)}, sr.bytes(n)...)})
+		}
+	}
 	return m
 }
 
